@@ -12,7 +12,7 @@ find spec -name '*.tla' -exec cp {} "$tmp"/ \;
 cd "$tmp"
 fail=0
 for f in *.tla; do
-  if ! java -cp /opt/veriftools/tla/tla2tools.jar:/opt/veriftools/tla/CommunityModules-deps.jar tla2sany.SANY "$f" > "$f.out" 2>&1 \
+  if ! java -Djava.io.tmpdir="$tmp" -cp /opt/veriftools/tla/tla2tools.jar:/opt/veriftools/tla/CommunityModules-deps.jar tla2sany.SANY "$f" > "$f.out" 2>&1 \
      || grep -q -E 'Semantic errors|Parse Error|Fatal errors|Could not find module' "$f.out"; then
     echo "SANY failed on $f"; tail -20 "$f.out"; fail=1
   fi
